@@ -382,6 +382,17 @@ class TransitionDefinition:
         self.event: str = event
         self.source: "StateNode" = source
         self.target_str: Optional[str] = config.get("target")
+        # 🛡️ A target is a state reference written as a string. Any other
+        #    value used to be accepted here and only failed when the
+        #    transition was taken, as a raw `TypeError` out of `send()`.
+        if self.target_str is not None and not isinstance(
+            self.target_str, str
+        ):
+            raise InvalidConfigError(
+                f"Transition for event '{event}' on state "
+                f"'{getattr(source, 'id', source)}' has a target of type "
+                f"'{type(self.target_str).__name__}'. Expected a string."
+            )
         self.actions: List[ActionDefinition] = actions or []
 
         # 🛡️ Guard resolution.
